@@ -13,6 +13,11 @@ obs[0] = impl result   vs driver line `model`   (impl ≡ model: the corresponde
 obs[1] = ref result    vs driver line `spec`    (Lean spec ≡ Python reference: a mismatch is a harness bug)
 viol   = impl ≠ ref   (the property itself, decided without Lean)
 """
+import atexit
+import hashlib
+import os
+import shutil
+import tempfile
 import warnings
 
 import core  # noqa: F401
@@ -24,7 +29,7 @@ ID = "C04"
 LEAN_TARGETS = ["RV.C04.Props", "RV.C04.Audit"]
 AUDIT = "RV/C04/Audit.lean"
 DRIVER = "drv_c04"
-CASES = {"quick": 1500, "thorough": 40000, "search": 20000}
+CASES = {"quick": 1200, "thorough": 40000, "search": 20000}
 RULE = ("random SELECT / ASK / CONSTRUCT queries (group nesting depth ≤ 4 quick, ≤ 6 thorough; BGP, joins of groups, "
         "OPTIONAL with and without filter, UNION, MINUS, FILTER with comparison / logical / bound / EXISTS / NOT EXISTS, "
         "BIND, VALUES, sub-SELECT, GRAPH; 4 shared variables) over random datasets (3-12 default-graph triples over ~8 "
@@ -43,13 +48,36 @@ TRUSTED = ["harness/sparqlgen.py (generator, SPARQL printer, s-expression encode
            "pyparsing tokenisation of the generated query text (the generator only prints fully parenthesised text)"]
 
 
+_GENERATED = []   # query texts made by gen_case in this process (for the bulk algebra prefetch in model_lines)
+_ALG = {}         # query text -> s-expression of rdflib's translated algebra
+# parsing is the expensive step (pyparsing, ~20 ms a query): the worker processes of run_impl leave the encoded algebra in
+# a scratch directory so that model_lines (main process) does not have to parse every query a second time
+_SCRATCH = tempfile.mkdtemp(prefix="c04-alg-")
+atexit.register(shutil.rmtree, _SCRATCH, True)
+_MAIN_PID = os.getpid()
+
+
+def _scratch_path(text):
+    return os.path.join(_SCRATCH, hashlib.sha1(text.encode()).hexdigest())
+
+
 def gen_case(rng, tier, i):
     named = rng.random() < 0.55
     ds = G.gen_dataset(rng, named=named)
     dmax = 4 if tier == "quick" else 6
     depth = rng.choice([1, 1, 2, 2, 2, 3, 3, dmax])
     q = G.gen_query(rng, ds, depth=depth)
+    _GENERATED.append(G.to_sparql(q))
     return {"ds": ds, "q": q}
+
+
+def _safe_line(alg_sx):
+    """mirror of the driver's `safe` answer, from sparqlgen's Python copy of RV/C04/Safe.lean"""
+    try:
+        pat = G.query_pattern(G.parse_sx(alg_sx))
+        return f"safe={0 if G.alg_problems(pat) else 1} frag={1 if G.alg_in_fragment(pat) else 0}"
+    except Exception as e:
+        return f"safe-error {type(e).__name__}"
 
 
 def _canon(res, star):
@@ -64,8 +92,20 @@ def run_impl(case):
     st = dict(G.stats_of(q))
     ref = G.eval_query(ds, q, st)
     ref_line = _canon(ref, star)
+    text = G.to_sparql(q)
     try:
-        got = G.run_rdflib(ds, q)
+        from rdflib.plugins.sparql import prepareQuery
+        pq = prepareQuery(text)
+        if text not in _ALG:
+            try:
+                _ALG[text] = G.encode_rdflib_algebra(pq.algebra)   # before evaluation (Expr.eval touches the tree)
+            except Exception as e:
+                _ALG[text] = f"(unencodable {type(e).__name__})"
+            if os.getpid() != _MAIN_PID:
+                with open(_scratch_path(text), "w") as f:
+                    f.write(_ALG[text])
+        g = G.to_rdflib_dataset(ds) if ds["named"] or ds.get("union") else G.to_rdflib_graph(ds)
+        got = G.read_rdflib_result(g.query(pq))
         impl_line = _canon(got, star)
     except Exception as e:  # the fragment never raises in the specification
         got, impl_line = {"error": type(e).__name__}, "error " + type(e).__name__
@@ -87,30 +127,62 @@ def run_impl(case):
     nonempty = bool(ref.get("bag")) or bool(ref.get("ask")) or bool(ref.get("graph"))
     st["nonempty"] = int(nonempty)
     st["queries"] = 1
+    alg = _algebra_text(G.to_sparql(q))
+    safe_line = _safe_line(alg)
+    try:
+        pat = G.query_pattern(G.parse_sx(alg))
+        probs = G.alg_problems(pat)
+        st["safe"] = int(not probs)
+        st["in_proved_fragment"] = int(G.alg_in_fragment(pat))
+        st["safe_and_in_proved_fragment"] = int(not probs and G.alg_in_fragment(pat))
+        for k in probs:
+            st["unsafe_" + k] = 1
+        if viol and not probs:
+            viol = ["safe-" + v for v in viol]     # a failure on a query the theorems' hypothesis `Safe` covers
+    except Exception:
+        st["algebra_unencodable"] = 1
     if star and "vars" in got and set(got["vars"]) != set(ref["vars"]):
         st["select_star_extra_header_vars"] = 1
     # SELECT *: rdflib's header also lists variables that occur only in FILTER / MINUS (never bound).  obs[0] compares
     # the header rdflib reports with the model's (PV of rdflib's tree); the property (a multiset of bindings) only needs
     # the in-scope variables to be present.
     n_elts = len(q["where"][1])
-    return {"obs": [impl_line, ref_line], "viol": viol,
+    return {"obs": [impl_line, ref_line, safe_line], "viol": viol,
             "nontrivial": nonempty and (n_elts >= 2 or any(x[0] != "tri" for x in q["where"][1])),
             "key": G.to_sparql(q) + "|" + G.sx_dataset(ds), "stats": st}
 
 
-def _algebra_sx(q):
-    from rdflib.plugins.sparql import prepareQuery
-    return G.encode_rdflib_algebra(prepareQuery(G.to_sparql(q)).algebra)
+def _algebra_text(text):
+    if text not in _ALG and os.path.exists(_scratch_path(text)):
+        _ALG[text] = open(_scratch_path(text)).read()
+    if text not in _ALG:
+        try:
+            from rdflib.plugins.sparql import prepareQuery
+            _ALG[text] = G.encode_rdflib_algebra(prepareQuery(text).algebra)
+        except Exception as e:
+            _ALG[text] = f"(unencodable {type(e).__name__})"
+    return _ALG[text]
+
+
+def _prefetch():
+    """translate all generated queries once, in parallel (prepareQuery costs ~10 ms each)"""
+    todo = [t for t in dict.fromkeys(_GENERATED) if t not in _ALG and not os.path.exists(_scratch_path(t))]
+    del _GENERATED[:]
+    if len(todo) < 64:
+        return
+    import multiprocessing as mp
+    with mp.get_context("fork").Pool(min(16, os.cpu_count() or 4)) as pool:
+        for t, a in zip(todo, pool.map(_algebra_text, todo, chunksize=32)):
+            _ALG[t] = a
 
 
 def model_lines(case):
     ds, q = case["ds"], case["q"]
+    if _GENERATED:
+        _prefetch()
     n = G.nvars(q)
-    try:
-        alg = _algebra_sx(q)
-    except Exception as e:
-        alg = f"(unencodable {type(e).__name__})"
-    return ["ds " + G.sx_dataset(ds), f"model {n} {alg}", f"spec {n} {G.sx_query(q)}"]
+    alg = _algebra_text(G.to_sparql(q))
+    return ["ds " + G.sx_dataset(ds), f"model {n} {alg}", f"spec {n} {G.sx_query(q)}", f"safe {alg}"]
 
 
 def _parse_term(c):
@@ -149,7 +221,7 @@ def _recanon(line, star):
 def select_model_obs(case, out):
     q = case["q"]
     star = q["form"] == "select" and q["proj"] is None
-    return [_recanon(out[1], star), _recanon(out[2], star)]
+    return [_recanon(out[1], star), _recanon(out[2], star), out[3]]
 
 
 def shrink(case):
@@ -159,4 +231,20 @@ def shrink(case):
         yield {**case, "ds": ds}
 
 
-MATCHERS = {}
+def _kind_matcher(kind):
+    def m(case, result):
+        """known finding of class `kind` (see RV/C04/Safe.lean): the query has a node whose `_vars` annotation is inexact
+        in that way, the property's oracle fails, AND rdflib's answer is exactly what the defect-carrying model predicts"""
+        if not result.get("viol") or any(v.startswith("safe-") or v.startswith("raises") for v in result["viol"]):
+            return False
+        alg = _algebra_text(G.to_sparql(case["q"]))
+        probs = G.alg_problems(G.query_pattern(G.parse_sx(alg)))
+        if kind not in probs:
+            return False
+        out = core.run_driver(__import__("c04"), model_lines(case))
+        return select_model_obs(case, out)[0] == result["obs"][0]
+    return m
+
+
+MATCHERS = {"vars_may_not_must": _kind_matcher("K1"), "vars_values_missing": _kind_matcher("K2"),
+            "vars_expression_only": _kind_matcher("K3")}
